@@ -48,7 +48,7 @@ CLAIMS = {
   "technique": "Lean 4 proof of effect-log completeness by induction on tree depth + effect-log correspondence + storage health oracle",
  },
  "C10": {
-  "text": "Proved in Lean for the value-level World model (one current handle per container): a child is inline exactly when it is a single slab that fits the slot's budget after wrappers, the parent element carries the size of the child's current form, the parent slot is refreshed by the notification, value IDs are stable under all five operations and both transitions, a handed-back child is standalone, index shifts are order independent; a handle obtained by lookup or mutable iteration gets exactly the closure the notification theorems assume (C10Get.*), reopening drops all closures. A single global invariant WorldOk (every container well-formed in its standalone or inlined form, parent element size = child's current form, inline exactly when it fits the slot, unique reference, index and closure bookkeeping consistent, acyclic) is proved preserved by Insert / Set / Remove on an array at any depth with array and map ancestors (C10W.worldOk_arr*, via notify_restores), together with the list-level result of the mutated container; the array core is re-proved for reference elements and inlined roots (C10W.*_refines_ref / _inlined). The model also covers PopIterate / SetType through nested handles (the two PopIterate defects this found are repaired: fixed: lines in known_findings.txt). Tie: ~20000 nested operations per run replayed on the model with nested structural dumps. The histories excluded by the hypothesis (two live handles to one container) violate the property on the real code: known findings F2/F2b, printed as KNOWN-FINDING.",
+  "text": "Proved in Lean for the value-level World model (one current handle per container): a child is inline exactly when it is a single slab that fits the slot's budget after wrappers, the parent element carries the size of the child's current form, the parent slot is refreshed by the notification, value IDs are stable under all five operations and both transitions, a handed-back child is standalone, index shifts are order independent; a handle obtained by lookup or mutable iteration gets exactly the closure the notification theorems assume (C10Get.*), reopening drops all closures. A single global invariant (WorldOk; WorldOk' = the same with 'closure parents are live' weakened, which is what survives bulk pops) (every container well-formed in its standalone or inlined form, parent element size = child's current form, inline exactly when it fits the slot, unique reference, index and closure bookkeeping consistent, acyclic) is proved preserved by EVERY operation of the nested-container model at any depth with array and map ancestors (C10W.worldOk_* / worldOk'_* for Insert, Set, Remove on arrays and maps, Get, reopen, SetType, New, PopIterate with or without kept children, and the caller's disposal; main induction notify_restores), together with the list-level result of the mutated container; the array core is re-proved for reference elements and inlined roots (C10W.*_refines_ref / _inlined). The model also covers PopIterate / SetType through nested handles (the two PopIterate defects this found are repaired: fixed: lines in known_findings.txt). Tie: ~20000 nested operations per run replayed on the model with nested structural dumps. The histories excluded by the hypothesis (two live handles to one container) violate the property on the real code: known findings F2/F2b, printed as KNOWN-FINDING.",
   "design_ref": "DESIGN.md 7/C10, 8, 13",
   "note": "Partial: persistence of child mutations composes with C03 by correspondence (commit+reload oracle), not by a Lean theorem; facts about Arr.set on reference elements are hypotheses (validated by correspondence).",
   "technique": "Lean 4 proof over a model of the parent-callback protocol + nested-history correspondence; known-finding signatures for dual handles",
